@@ -14,7 +14,7 @@ RULES = {
  'C10': ('90 string lists (all lists of 0..3 strings over lengths {0,1,2,5}; 256 empty; 300 one-byte; one of 65533 bytes; 255/256 mixed) x requested counts {0,n-1,n,n+1,n+5} x {null, exact-extent} destinations; pack into exactly data_length bytes before a PROT_NONE page, count, unpack', {}),
  'C13': ('15 helpers x {all 2^16 values; 32/64-bit: one-hot, one-cold, two-hot, every ordered pair of byte positions x 65536 contents x 3 backgrounds; thorough: all 2^32 values for the 32-bit helpers}; memory image, to-host inverse, involution, and the helper set of the other preprocessor branch compared as functions (mirror image)', {}),
 }
-ASSUME = ['eight worlds: an ILP32 one (gcc -m32, freestanding, own minimal C runtime) and gcc -O2, gcc -O0 (the project\'s default CMake build has no optimisation flag), gcc -O3 -DNDEBUG (CMake Release), clang -O2, gcc -O2 without predefined byte-order macros, gcc -O2 -fshort-enums and clang -O1 with a 32-bit long (LLP64 data model)', 'the reference encoders follow acf-vss.md / IEEE 1722-2016 literally (DESIGN appendix A/B)', 'other compilers, optimisation levels, placements and host byte orders are C14/C15',
+ASSUME = ['nine worlds: gcc -O2 -funsigned-char -march=x86-64-v3 with the BSD/newlib endian constants defined, and an ILP32 one (gcc -m32, freestanding, own minimal C runtime) and gcc -O2, gcc -O0 (the project\'s default CMake build has no optimisation flag), gcc -O3 -DNDEBUG (CMake Release), clang -O2, gcc -O2 without predefined byte-order macros, gcc -O2 -fshort-enums and clang -O1 with a 32-bit long (LLP64 data model)', 'the reference encoders follow acf-vss.md / IEEE 1722-2016 literally (DESIGN appendix A/B)', 'other compilers, optimisation levels, placements and host byte orders are C14/C15',
           'inputs outside the stated lattices are not executed']
 
 
@@ -109,6 +109,9 @@ def run(prop, tier):
     res = core.run_slices(exem, ['--suite', prop, '--tier', tier], timeout=1500 if tier == 'thorough' else 600, result=res, tag='gcc -O2, byte-order macros undefined')
     exee = build(prop, '-O2', fresh=False, defs=('-fshort-enums',), tag='-shortenums')
     res = core.run_slices(exee, ['--suite', prop, '--tier', tier], timeout=1500 if tier == 'thorough' else 600, result=res, tag='gcc -O2 -fshort-enums')
+    EXOTIC = ('-funsigned-char', '-march=x86-64-v3', '-D_LITTLE_ENDIAN=1234', '-D_BIG_ENDIAN=4321', '-D_PDP_ENDIAN=3412', '-D_BYTE_ORDER=_LITTLE_ENDIAN')
+    exex = build(prop, '-O2', fresh=False, defs=EXOTIC, tag='-exotic')
+    res = core.run_slices(exex, ['--suite', prop, '--tier', tier], timeout=1500 if tier == 'thorough' else 600, result=res, tag='gcc -O2 -funsigned-char -march=x86-64-v3, BSD endian constants defined')
     # a host whose long is 32 bits wide (LLP64 data model)
     from . import llp64
     bdir = os.path.join(core.ROOT, 'build', prop)
